@@ -863,3 +863,198 @@ class true_to_256:
 
     def ensures(a, result):
         yield from true_to_256_clauses(a.desc, result)
+
+
+# =============================================================================================================
+# AttrSpec: the packed 62-bit word `_AttrSpec__value`
+# =============================================================================================================
+from pyvc.interp import and_mask_formula, or_within_mask  # noqa: E402
+
+
+def K(name):
+    return real_const(name)
+
+
+ATTRSPEC = real_const("AttrSpec")
+WORD = "_AttrSpec__value"
+SPEC = Obj(ATTRSPEC, {WORD: Int})
+STYLE_NAMES = ("_STANDOUT", "_UNDERLINE", "_BOLD", "_BLINK", "_ITALICS", "_STRIKETHROUGH")
+GETTERS = tuple(f"AttrSpec.{n}" for n in (
+    "foreground_basic", "foreground_high", "foreground_true", "foreground_number", "background_basic", "background_high",
+    "background_true", "background_number", "italics", "bold", "underline", "blink", "standout", "strikethrough", "_value"))
+
+
+def word(s):
+    return s.fields[WORD]
+
+
+def field(v, mask):
+    """v & mask (mask a constant >= 0) in integer arithmetic."""
+    return and_mask_formula(v, mask)
+
+
+def flag(v, name):
+    return field(v, K(name)) != 0
+
+
+def styles_mask():
+    m = 0
+    for n in STYLE_NAMES:
+        m |= K(n)
+    return m
+
+
+def fg_field_mask():
+    """Every bit the foreground setter may write: colour number, the three kind flags, the six settings."""
+    return K("_FG_COLOR_MASK") | K("_FG_BASIC_COLOR") | K("_FG_HIGH_COLOR") | K("_FG_TRUE_COLOR") | styles_mask()
+
+
+def bg_field_mask():
+    return K("_BG_COLOR_MASK") | K("_BG_BASIC_COLOR") | K("_BG_HIGH_COLOR") | K("_BG_TRUE_COLOR")
+
+
+def fg_number(v):
+    return field(v, K("_FG_COLOR_MASK"))
+
+
+def bg_number(v):
+    return field(v, K("_BG_COLOR_MASK")) // 2 ** K("_BG_SHIFT")
+
+
+def side_wf(v, basic, high, true, number):
+    """One side (foreground or background) of a well-formed word: at most one kind; the kind fits the declared
+    depth (true colours only in 2**24 mode, palette colours only outside it); the number fits the kind."""
+    m88, mtrue = flag(v, "_HIGH_88_COLOR"), flag(v, "_HIGH_TRUE_COLOR")
+    return both(
+        neg(both(basic, high)), neg(both(basic, true)), neg(both(high, true)),
+        implies(true, mtrue), implies(high, neg(mtrue)),
+        implies(neg(either(basic, high, true)), number == 0),
+        implies(basic, number < 16),
+        implies(high, number < ite(m88, 88, 256)),
+    )
+
+
+def wf(v):
+    """Representation invariant of AttrSpec (what __init__ establishes and the accessors rely on)."""
+    return both(
+        0 <= v, v < 2**62,
+        neg(both(flag(v, "_HIGH_88_COLOR"), flag(v, "_HIGH_TRUE_COLOR"))),
+        side_wf(v, flag(v, "_FG_BASIC_COLOR"), flag(v, "_FG_HIGH_COLOR"), flag(v, "_FG_TRUE_COLOR"), fg_number(v)),
+        side_wf(v, flag(v, "_BG_BASIC_COLOR"), flag(v, "_BG_HIGH_COLOR"), flag(v, "_BG_TRUE_COLOR"), bg_number(v)),
+    )
+
+
+def RI(s):
+    return wf(word(s))
+
+
+def colors_spec(v):
+    any_high = either(flag(v, "_FG_HIGH_COLOR"), flag(v, "_BG_HIGH_COLOR"))
+    any_true = either(flag(v, "_FG_TRUE_COLOR"), flag(v, "_BG_TRUE_COLOR"))
+    any_basic = either(flag(v, "_FG_BASIC_COLOR"), flag(v, "_BG_BASIC_COLOR"))
+    return ite(flag(v, "_HIGH_88_COLOR"), 88, ite(any_high, 256, ite(any_true, 2**24, ite(any_basic, 16, 1))))
+
+
+@contract(DC + "AttrSpec.colors", property="C18", replayable=False)
+class attrspec_colors:
+    self_shape = SPEC
+    params = {}
+    result = Int
+    raises = ()
+    deterministic = True
+
+    def requires(s, a):
+        return both(0 <= word(s), word(s) < 2**62)
+
+    def ensures(old, s, a, result):
+        v = word(s)
+        any_high = either(flag(v, "_FG_HIGH_COLOR"), flag(v, "_BG_HIGH_COLOR"))
+        any_true = either(flag(v, "_FG_TRUE_COLOR"), flag(v, "_BG_TRUE_COLOR"))
+        any_basic = either(flag(v, "_FG_BASIC_COLOR"), flag(v, "_BG_BASIC_COLOR"))
+        m88 = flag(v, "_HIGH_88_COLOR")
+        yield "declared-88-colour-mode-is-reported-as-88", implies(m88, result == 88)
+        yield "one-of-the-five-depths", either(*[result == d for d in (1, 16, 88, 256, 2**24)])
+        yield "enough-for-every-colour-present", implies(both(wf(v), neg(m88)), both(implies(any_true, result >= 2**24), implies(any_high, result >= 256), implies(any_basic, result >= 16)))
+        yield "no-more-than-some-colour-present-needs", implies(neg(m88), both(implies(result >= 2**24, any_true), implies(result >= 256, either(any_true, any_high)), implies(result >= 16, either(any_true, any_high, any_basic))))
+        yield "the-depth-by-flag-priority", result == colors_spec(v)
+        yield "word-unchanged", word(s) == word(old)
+
+
+@contract(DC + "AttrSpec.__eq__", property="C18", replayable=False)
+class attrspec_eq:
+    self_shape = SPEC
+    params = dict(other=Union(SPEC, Int, Const(None)))
+    result = Bool
+    raises = ()
+    inline = GETTERS
+
+    def ensures(old, s, a, result):
+        if isinstance(a.other, Q.SObj):
+            yield "equal-exactly-when-the-packed-words-are-equal", result == (word(s) == word(a.other))
+        else:
+            yield "never-equal-to-something-that-is-not-an-attrspec", neg(result)
+
+
+def hash_spec(v):
+    return mk_int(HASH_PAIR(z3.IntVal(V.atom_code("class:AttrSpec")), V._z(v)))
+
+
+@contract(DC + "AttrSpec.__hash__", property="C18", replayable=False)
+class attrspec_hash:
+    self_shape = SPEC
+    params = {}
+    result = Int
+    raises = ()
+    call_real = staticmethod(cstr_call_real)
+
+    def ensures(old, s, a, result):
+        yield "a-function-of-the-class-and-the-packed-word-only", result == hash_spec(word(s))
+
+
+@lemma("equal-attrspecs-have-equal-hashes", property="C18")
+class eq_implies_hash:
+    """Composition of the two contracts above: __eq__ answers True exactly on equal words, __hash__ is a function of
+    the word — so equal specifications hash alike."""
+    params = dict(v1=Int, v2=Int)
+
+    def requires(a):
+        return a.v1 == a.v2  # what `s1 == s2` means, by AttrSpec.__eq__'s contract
+
+    def claim(a):
+        yield "equal-hashes", hash_spec(a.v1) == hash_spec(a.v2)
+
+
+def rgb_of_side(v, kind_basic, kind_high, kind_true, number, got):
+    """`got` (three values) are the RGB components the tables give for one side of the word."""
+    m88 = flag(v, "_HIGH_88_COLOR")
+    none3 = both(*[opt_isnone(x) for x in got])
+    vals = [0 if x is None else val(x) for x in got]
+    some3 = both(*[neg(opt_isnone(x)) for x in got])
+    t88, t256 = T("_COLOR_VALUES_88", number), T("_COLOR_VALUES_256", number)
+    eq3 = lambda t: both(some3, *[x == y for x, y in zip(vals, t)])  # noqa: E731
+    # the three bytes of the number, characterised positionally (unique): 0 <= r,g,b < 256 and r*2^16 + g*2^8 + b == number
+    true_ok = both(some3, *[both(0 <= x, x < 256) for x in vals], vals[0] * 65536 + vals[1] * 256 + vals[2] == number)
+    yield "default-has-no-components", implies(neg(either(kind_basic, kind_high, kind_true)), none3)
+    yield "88-colour-mode-reads-the-88-colour-xterm-table", implies(both(either(kind_basic, kind_high), m88), eq3(t88))
+    yield "true-colours-are-their-own-components", implies(kind_true, true_ok)
+    yield "otherwise-the-256-colour-xterm-table", implies(both(either(kind_basic, kind_high), neg(m88)), eq3(t256))
+
+
+@contract(DC + "AttrSpec.get_rgb_values", property="C18", replayable=False)
+class attrspec_rgb:
+    self_shape = SPEC
+    params = {}
+    raises = ()
+    invariant = staticmethod(RI)
+    inline = GETTERS
+    setup = staticmethod(tables_setup)
+    fstring = staticmethod(cstr_fstring)
+
+    def ensures(old, s, a, result):
+        v = word(s)
+        yield "six-components", len(result) == 6
+        for label, f in rgb_of_side(v, flag(v, "_FG_BASIC_COLOR"), flag(v, "_FG_HIGH_COLOR"), flag(v, "_FG_TRUE_COLOR"), fg_number(v), result[0:3]):
+            yield "foreground-" + label, f
+        for label, f in rgb_of_side(v, flag(v, "_BG_BASIC_COLOR"), flag(v, "_BG_HIGH_COLOR"), flag(v, "_BG_TRUE_COLOR"), bg_number(v), result[3:6]):
+            yield "background-" + label, f
+        yield "word-unchanged", word(s) == word(old)
